@@ -36,6 +36,17 @@ func unpackTar(
 	err error,
 ) {
 	defer RequireErrorHasCategory(&err, rio.ErrorCategory(""))
+	// The hash bucket reports a malformed set of entries (repeated or orphaned paths) by panicking
+	// with ErrInvalidFilesystem, and expects its caller to map that to something meaningful.
+	defer func() {
+		if r := recover(); r != nil {
+			if e, ok := r.(fshash.ErrInvalidFilesystem); ok {
+				err = Errorf(rio.ErrWareCorrupt, "corrupt tar: %s", e)
+				return
+			}
+			panic(r)
+		}
+	}()
 
 	// Wrap input stream with decompression as necessary.
 	//  Which kind of decompression to use can be autodetected by magic bytes.
@@ -100,6 +111,9 @@ func unpackTar(
 		}
 		if strings.HasPrefix(fmeta.Name.String(), "..") {
 			return api.WareID{}, api.WareID{}, Errorf(rio.ErrWareCorrupt, "corrupt tar: paths that use '../' to leave the base dir are invalid")
+		}
+		if fmeta.Type != fs.Type_Dir && prefilterBucket.HasRecord(fmeta) {
+			return api.WareID{}, api.WareID{}, Errorf(rio.ErrWareCorrupt, "corrupt tar: repeated entry %q", fmeta.Name)
 		}
 
 		// Infer parents, if necessary.  The tar format allows implicit parent dirs.
